@@ -98,6 +98,15 @@ Theorem C17_index_eq_scan : forall m1 seed ops t f,
 Proof. exact index_eq_scan. Qed.
 Print Assumptions C17_index_eq_scan.
 
+(* (6') the exact observable the correspondence compares: the indexed answer sorted by key is,
+   as a list, the answer of the full scan. *)
+Theorem C17_index_eq_scan_sorted : forall m1 seed ops t f,
+  Forall op_in_scope ops -> nodup_keys f = true ->
+  let s := run (init m1 get_skips_repeated_values seed) ops in
+  sort_rows (q_rows (run_query s t (build f))) = q_rows (run_query s t (mk_pred (holds f))).
+Proof. exact index_eq_scan_sorted. Qed.
+Print Assumptions C17_index_eq_scan_sorted.
+
 (* (7) ordered cursor pagination (readers without pending writes): the unlimited walk is a
    permutation of the scan with the cursor predicate, ordered by the indexed value in the walk
    direction; a page is its first [limit] rows; a Where filter post-filters the page. *)
